@@ -438,6 +438,67 @@ class CMap(collections.abc.Mapping):
         return tuple((k, self.d[k]) for k in ks), ('keys', tuple(ks))
 
 
+class NTC(namedtuple('NTCBase', 'p q')):
+    """a namedtuple class that is *registered as a custom node* in NS (overrides the namedtuple
+    handling there; children in reverse order); a plain namedtuple node everywhere else"""
+
+    __slots__ = ()
+
+
+def ntc_flatten(o):
+    return (o.q, o.p), 'ntc', ('q', 'p')
+
+
+def ntc_unflatten(meta, ch):
+    q, p = ch
+    return NTC(p, q)
+
+
+class CL:
+    """custom node whose flatten yields its children from a generator and declares its entries as a
+    *list* of mixed-type objects (int, str, tuple)"""
+
+    ENTRIES = [0, 'one', (2, 'two'), 3.5]
+
+    def __init__(self, ch):
+        self.ch = list(ch)[:4]
+
+    def __getitem__(self, e):
+        return self.ch[self.ENTRIES.index(e)]
+
+    def tree_flatten(self):
+        return (c for c in self.ch), len(self.ch), list(self.ENTRIES[:len(self.ch)])
+
+    @classmethod
+    def tree_unflatten(cls, meta, ch):
+        return cls(ch)
+
+    TREE_PATH_ENTRY_TYPE = optree.GetItemEntry
+
+    def __repr__(self):
+        return f'CL({self.ch!r})'
+
+    def _v_fields(self):
+        return (('ch', list(self.ch)),), ('n', len(self.ch))
+
+
+class DSN(dict):
+    """a dict subclass registered as a custom node in NS only (a leaf elsewhere)"""
+
+    def _v_fields(self):
+        ks = sorted(self)
+        return tuple((k, self[k]) for k in ks), ('keys', tuple(ks))
+
+
+def dsn_flatten(o):
+    ks = sorted(o)
+    return [o[k] for k in ks], tuple(ks), tuple(ks)
+
+
+def dsn_unflatten(meta, ch):
+    return DSN(zip(meta, ch))
+
+
 class Bad:
     """Deliberately malformed custom node (C03 error parity, C15): flatten misbehaves per kind."""
 
@@ -481,7 +542,7 @@ def bad_unflatten(meta, ch):
     return Bad('rebuilt')
 
 
-CUSTOM_CLASSES = (CG, CN, CS, CM, CU, CI, DC, oft.partial, Bad, CSeq, CMap, DCI)
+CUSTOM_CLASSES = (CG, CN, CS, CM, CU, CI, DC, oft.partial, Bad, CSeq, CMap, DCI, CL, DSN)
 
 # (namespace, type) -> (flatten, unflatten, path_entry_type).  '' is the global namespace.
 MODEL_REGISTRY: dict = {}
@@ -526,6 +587,17 @@ def install():
     optree.register_pytree_node(DCI, dci_flatten, dci_unflatten, path_entry_type=optree.DataclassEntry,
                                 namespace=GLOBAL)
     MODEL_REGISTRY[('', DCI)] = (dci_flatten, dci_unflatten, optree.DataclassEntry)
+    import warnings
+    with warnings.catch_warnings():
+        warnings.simplefilter('ignore')      # registering a namedtuple class warns (by design)
+        optree.register_pytree_node(NTC, ntc_flatten, ntc_unflatten, path_entry_type=optree.GetAttrEntry,
+                                    namespace=NS)
+    MODEL_REGISTRY[(NS, NTC)] = (ntc_flatten, ntc_unflatten, optree.GetAttrEntry)
+    optree.register_pytree_node_class(CL, namespace=GLOBAL)
+    MODEL_REGISTRY[('', CL)] = (_cls_flatten, CL.tree_unflatten, optree.GetItemEntry)
+    optree.register_pytree_node(DSN, dsn_flatten, dsn_unflatten, path_entry_type=optree.MappingEntry,
+                                namespace=NS)
+    MODEL_REGISTRY[(NS, DSN)] = (dsn_flatten, dsn_unflatten, optree.MappingEntry)
     # malformed node: registered with optree only (the model never flattens it)
     optree.register_pytree_node(Bad, bad_flatten, bad_unflatten, namespace=GLOBAL)
 
